@@ -427,6 +427,73 @@ pub fn run(tier: &str) -> Run {
         }
         run.require("member-list unions: conserved", 5000);
     }
+    // MOD_PAR on both sides: the SYSTEM_CONSTANTs (a name and a value) of A stay as they are, every name of B is represented, and no
+    // name occurs twice, for every combination of {absent, value 1, value 2} per side for a shared name plus a name of B's own
+    {
+        let consts = |text: &str| -> Vec<(String, String)> {
+            let Ok(lex) = vcore::reftok::lex(text) else { return vec![] };
+            let t = &lex.tokens;
+            (0..t.len()).filter(|i| t[*i].text == "SYSTEM_CONSTANT" && i + 2 < t.len()).map(|i| (t[i + 1].text.clone(), t[i + 2].text.clone())).collect()
+        };
+        for va in [None, Some("1"), Some("2")] {
+            for vb in [None, Some("1"), Some("2")] {
+                for (a_has_modpar, b_own) in [(true, true), (true, false), (false, true)] {
+                    let mp = |shared: Option<&str>, own: Option<(&str, &str)>| {
+                        let mut m = e("MOD_PAR", "", "c1");
+                        if let Some(v) = shared {
+                            m = m.kid(ks("SYSTEM_CONSTANT", &[("name", "\"X\""), ("value", &format!("\"{v}\""))]));
+                        }
+                        if let Some((n, v)) = own {
+                            m = m.kid(ks("SYSTEM_CONSTANT", &[("name", &format!("\"{n}\"")), ("value", &format!("\"{v}\""))]));
+                        }
+                        m
+                    };
+                    let ea: Vec<ESpec> = if a_has_modpar { vec![mp(va, Some(("A_OWN", "7")))] } else { vec![] };
+                    let eb = vec![mp(vb, if b_own { Some(("B_OWN", "8")) } else { None })];
+                    let (ta, tb) = (file_text(&g, "A", &ea), file_text(&g, "B", &eb));
+                    run.evaluations += 1;
+                    run.transitions += 3;
+                    run.states.insert(fnv1a(format!("{ta}|{tb}").as_bytes()));
+                    let label = format!("MOD_PAR: SYSTEM_CONSTANT X = {va:?} in A (MOD_PAR present: {a_has_modpar}), {vb:?} in B, own constant in B: {b_own}");
+                    let r = (|| -> Result<Vec<(&'static str, String)>, String> {
+                        let (Loaded::Ok(mut fa, _), Loaded::Ok(mut fb, _)) = (load(&ta, None, false), load(&tb, None, false)) else { return Err("machinery: generated module does not load".into()) };
+                        let (ca, cb) = (consts(&fa.write_to_string()), consts(&fb.write_to_string()));
+                        vcore::explore::guard(|| fa.merge_modules(&mut fb)).map_err(|p| format!("panic: {p}"))?;
+                        let cr = consts(&fa.write_to_string());
+                        let mut out = Vec::new();
+                        for c in &ca {
+                            if !cr.contains(c) {
+                                out.push(("A-element-changed", format!("SYSTEM_CONSTANT {} {} of A is missing or altered: {cr:?}", c.0, c.1)));
+                            }
+                        }
+                        for c in &cb {
+                            if !cr.iter().any(|r| r.0 == c.0) {
+                                out.push(("B-element-lost", format!("SYSTEM_CONSTANT {} of B is not represented: {cr:?}", c.0)));
+                            }
+                        }
+                        let mut names: Vec<&String> = cr.iter().map(|c| &c.0).collect();
+                        names.sort();
+                        if names.windows(2).any(|w| w[0] == w[1]) {
+                            out.push(("duplicate-name", format!("the result holds a SYSTEM_CONSTANT name twice: {cr:?}")));
+                        }
+                        Ok(out)
+                    })();
+                    match r {
+                        Err(e2) if e2.starts_with("machinery") => run.machinery(format!("{label}: {e2}")),
+                        Err(e2) => run.violation(format!("C08/panic {}", vcore::explore::panic_key(&e2)), format!("{label}: {e2}"), json!({"a": ta, "b": tb})),
+                        Ok(vs) => {
+                            if vs.is_empty() {
+                                run.outcome("system constants: conserved");
+                            }
+                            for (o, w) in vs {
+                                run.violation(format!("C08/{o}/mod-par/SystemConstant"), format!("{label}: {w}"), json!({"a": ta, "b": tb}));
+                            }
+                        }
+                    }
+                }
+            }
+        }
+    }
     // same-name elements that differ only in a later one of several same-named sub-items (an INSTANCE with one OVERWRITE per
     // axis: the OVERWRITE blocks share the name of the instance's component)
     {
